@@ -123,7 +123,7 @@ def diffNode (m : Metas) (merge : Bool) (a b : Json) (p : List Json) : VDiff :=
           subs ++ (if rem.isEmpty && add.isEmpty then []
                    else [{ path := appendIndex p [] m, old := rem, new := add }])
       | _ =>
-        if merge then [{ path := prependMerge p, new := b'.nodeList }]
+        if merge then [{ path := prependMerge p, new := [b'] }]
         else [{ path := p, old := (Json.arr .raw xs).nodeList, new := b'.nodeList }]
     | .mset =>
       match b' with
@@ -144,7 +144,7 @@ def diffNode (m : Metas) (merge : Bool) (a b : Json) (p : List Json) : VDiff :=
           if rem.isEmpty && add.isEmpty then []
           else [{ path := appendIndex p [] m, old := rem, new := add }]
       | _ =>
-        if merge then [{ path := prependMerge p, new := b'.nodeList }]
+        if merge then [{ path := prependMerge p, new := [b'] }]
         else [{ path := p, old := (Json.arr .raw xs).nodeList, new := b'.nodeList }]
     | _ =>
       match b' with
